@@ -108,3 +108,66 @@ theorem closeChan_WF (r : RState) (h : r.WF) : r.closeChan.WF := by
 theorem closeChan_pending (r : RState) : r.closeChan.pending = r.pending := rfl
 
 end AnyTLS
+
+namespace AnyTLS
+
+/-- `read_exact` is fragmentation-independent: whenever at least `n` bytes are deliverable, it
+returns exactly the first `n` of them — whatever the chunking — and leaves the rest. -/
+theorem readExactFuel_spec : ∀ (fuel : Nat) (r : RState) (need : Nat) (acc : Bytes),
+    r.WF → need ≤ fuel → need ≤ r.pending.length →
+    ∃ r', RState.readExactFuel fuel r need acc = (.ok (acc ++ r.pending.take need), r') ∧
+      r'.pending = r.pending.drop need ∧ r'.WF ∧ r'.chanOpen = r.chanOpen := by
+  intro fuel
+  induction fuel with
+  | zero =>
+    intro r need acc hwf h1 _
+    have : need = 0 := by omega
+    subst this
+    exact ⟨r, by simp [RState.readExactFuel], by simp, hwf, rfl⟩
+  | succ fuel ih =>
+    intro r need acc hwf h1 h2
+    cases need with
+    | zero => exact ⟨r, by simp [RState.readExactFuel], by simp, hwf, rfl⟩
+    | succ m =>
+      have hs := read_spec r (m + 1) (by omega) hwf
+      unfold RState.readExactFuel
+      cases hr : r.read (m + 1) with
+      | mk out r1 =>
+        rw [hr] at hs
+        cases out with
+        | data b =>
+          simp only at hs ⊢
+          obtain ⟨hb, hlen, hcat, hco, hwf1⟩ := hs
+          have hbe : b.isEmpty = false := by cases b <;> simp_all
+          simp only [hbe, Bool.false_eq_true, if_false]
+          have hbl : 0 < b.length := by cases b <;> simp_all
+          have hneed : m + 1 - b.length ≤ r1.pending.length := by
+            have := congrArg List.length hcat; simp at this; omega
+          obtain ⟨r', he, hp, hw, hc⟩ := ih r1 (m + 1 - b.length) (acc ++ b) hwf1 (by omega) hneed
+          refine ⟨r', ?_, ?_, hw, by rw [hc, hco]⟩
+          · rw [he, ← hcat]
+            congr 1
+            rw [List.append_assoc]
+            congr 1
+            rw [List.take_append]
+            have : (b.take (m + 1)) = b := List.take_of_length_le hlen
+            rw [this]
+          · rw [hp, ← hcat, List.drop_append]
+            have : b.drop (m + 1) = [] := List.drop_of_length_le hlen
+            rw [this]; simp
+        | eof =>
+          simp only at hs
+          have := hs.1
+          rw [this] at h2; simp at h2
+        | block =>
+          simp only at hs
+          have := hs.2.1
+          rw [this] at h2; simp at h2
+
+theorem readExact_spec (r : RState) (n : Nat) (hwf : r.WF) (h : n ≤ r.pending.length) :
+    ∃ r', r.readExact n = (.ok (r.pending.take n), r') ∧
+      r'.pending = r.pending.drop n ∧ r'.WF ∧ r'.chanOpen = r.chanOpen := by
+  have := readExactFuel_spec n r n [] hwf (Nat.le_refl _) h
+  simpa [RState.readExact] using this
+
+end AnyTLS
